@@ -8,7 +8,7 @@ import os
 from ..report import rule, VERIF_DIR
 from ..model import norm, NotConst, calls_in, stores_in, ShapeError, AnchorMissing, is_self_attr
 from ..paths import enumerate_paths, facts_at, walk_shallow, enclosing_stmt, always_leaves
-from ..guards import Evaluator, atom_texts, atoms_of_facts
+from ..guards import Evaluator, atom_texts, conjuncts, atoms_of_facts
 from ..tables import Tables
 from .common import where, path_nodes, feasible, body_paths, consistent, self_call
 
@@ -77,6 +77,38 @@ def r1(ctx):
         tx = norm(r.exc)
         kinds.add("writeAccessDenied" if "writeAccessDenied" in tx else "InvalidParameterDatatype" if "InvalidParameterDatatype" in tx else "propertyIsNotAnArray" if "propertyIsNotAnArray" in tx else "ValueError" if "ValueError" in tx else "other")
     ctx.check("Property.WriteProperty:validation-precedes", {"writeAccessDenied", "InvalidParameterDatatype"} <= kinds and len(rs) >= 8, where(m, f), "mutability and datatype checks must precede the store (found %d refusing raises of kinds %s before it)" % (len(rs), sorted(kinds)))
+    # (d) the datatype cascade is exhaustive over value kinds: every way through an arm that does not refuse has actually
+    # tested the value for membership in something (is_valid / isinstance ... true), never only "it is not a list"
+    casc = None
+    for x in ast.walk(f):
+        if isinstance(x, ast.If) and "issubclass(self.datatype, AnyAtomic)" in norm(x.test):
+            casc = x
+    if casc is None:
+        raise ShapeError("Property.WriteProperty: datatype cascade not found")
+    node = casc
+    narm = 0
+    while True:
+        arm_name = norm(node.test)[:60]
+        for p_ in body_paths(node.body):
+            if p_.term == "raise" or not consistent(p_.conds()):
+                continue
+            narm += 1
+            tested = False
+            for t_, pol_ in p_.conds():
+                for a_, ap_ in conjuncts(t_, pol_):
+                    tx = norm(a_)
+                    if isinstance(a_, ast.Call) and (tx.startswith("isinstance(value") or tx.endswith(".is_valid(value)") or tx.startswith("isinstance(item") or tx.endswith(".is_valid(item)")) and ap_:
+                        tested = True
+                    if isinstance(a_, ast.BoolOp) and "isinstance(value, self.datatype)" in tx:
+                        tested = True           # (value is not None) and not isinstance(value, datatype): false means None or an instance
+            ctx.check("Property.WriteProperty:arm[%s]:value-kind-tested" % arm_name, tested, where(m, node),
+                      "a value can pass this arm without ever being tested for membership in the property's type (%s): it is stored unchecked" % p_.describe()[:160])
+        if len(node.orelse) == 1 and isinstance(node.orelse[0], ast.If):
+            node = node.orelse[0]
+        else:
+            break
+    if narm < 5:
+        raise ShapeError("Property.WriteProperty: only %d accepting paths through the datatype cascade" % narm)
     # direct writes skip validation only
     d = [s for s in top[:first] if isinstance(s, ast.If) and norm(s.test) == "direct"]
     ctx.check("Property.WriteProperty:direct-skips-validation-only", len(d) == 1 and not any(_is_mutation(x) for x in ast.walk(d[0])), where(m, f), "`direct` selects whether to validate, never whether to store")
@@ -410,7 +442,7 @@ def r4(ctx):
         ctx.check("%s:device-wildcard" % fn.name, ok, where(so, fn), "(device, 4194303) addresses the local device object")
 
 
-@rule("C15.R4a", "value-conversion branches that only one of ReadProperty / ReadPropertyMultiple has", floor=0, advisory=True, engines="sibling normal form")
+@rule("C15.R4a", "ReadProperty and ReadPropertyMultiple convert a stored value through the same cascade: no branch that only one of them has", floor=1, engines="sibling normal form")
 def r4a(ctx):
     prog = ctx.prog
     so = prog.module("service.object")
